@@ -27,7 +27,8 @@ def own_deadlock_sites(ctx, rule, fns=None):
         VF = variant_facts(f)
         ctx.touch(f)
         ordinal = {}
-        for bb, t in f.calls():
+        sites = [(bb, t) for bb, t in f.calls()] + [(bb, t) for bb, t in f.drops()]
+        for bb, t in sorted(sites, key=lambda x: x[0]):
             if f.blocks[bb]["cleanup"]:
                 continue
             eff = facts.call_effects(inst, bb)
@@ -36,6 +37,12 @@ def own_deadlock_sites(ctx, rule, fns=None):
                 continue
             n_sites += 1
             live = init_at_terminator(f, IN, bb)
+            if t["t"] == "drop":
+                # destroying a value that owns a writer waits for that writer's turn; the value being
+                # destroyed is not "an earlier writer still owned"
+                if not t["pl"]["p"]:
+                    live.discard(t["pl"]["l"])
+                t = dict(t, args=[], callee="drop", res="drop(%s)" % short(t["ty"])[:60])
             owners = []
             # the writer this call writes *to* (lent by reference) is not an earlier one
             lent = backward_slice_locals(f, [op_local(a) for a in t["args"] if op_local(a) is not None])
@@ -426,3 +433,109 @@ def walk_decision(f, start, atom_of, assignment, stop, on_block=None, max_steps=
             return None, visited
         raise CheckerError("unrecognised branch at %s while extracting a decision table in %s" % (f.loc(bb), f.id))
     raise CheckerError("decision walk did not terminate in %s" % f.id)
+
+
+def walk_paths(f, start, atom_of, assignment, stop, max_paths=48, max_steps=500, max_visits=2):
+    """Like walk_decision, but an unrecognised branch forks instead of aborting.  Returns a list of
+    (end_block_or_None, visited_blocks).  Paths end at a block of `stop`, at a block without
+    successors, or when a block would be visited more than `max_visits` times (loop cut)."""
+    flags = f.flag_locals()
+    st0 = f.flag_states()[start] or {}
+    fval0 = {l: next(iter(vs)) for l, vs in st0.items() if len(vs) == 1}
+    out = []
+    work = [(start, dict(fval0), [])]
+    steps = 0
+    while work:
+        bb, fval, visited = work.pop()
+        while True:
+            steps += 1
+            if steps > max_steps * max_paths:
+                raise CheckerError("decision walk explosion in %s" % f.id)
+            if visited.count(bb) >= max_visits:
+                out.append((None, visited + [bb]))
+                break
+            visited = visited + [bb]
+            if bb in stop:
+                out.append((bb, visited))
+                break
+            for s in f.stmts(bb):
+                if s["s"] == "assign" and not s["lhs"]["p"] and s["lhs"]["l"] in flags and s["rhs"]["rv"] == "use":
+                    fval[s["lhs"]["l"]] = op_const(s["rhs"]["op"])
+            t = f.term(bb)
+            if t["t"] == "switch" and op_local(t["discr"]) in flags:
+                if op_local(t["discr"]) in fval:
+                    v = fval[op_local(t["discr"])]
+                    tg = dict((bool(x), b) for x, b in t["targets"])
+                    bb = tg.get(v, t["otherwise"])
+                else:
+                    bb = f.succs(bb, False)[0]
+                continue
+            a = atom_of(bb)
+            if a is not None:
+                name, edges = a
+                v = assignment[name]
+                if v not in edges:
+                    raise CheckerError("decision %s has no edge for %r in %s" % (name, v, f.id))
+                bb = edges[v]
+                continue
+            succ = f.succs(bb, False)
+            if not succ:
+                out.append((None, visited))
+                break
+            if len(succ) == 1:
+                bb = succ[0]
+                continue
+            if len(out) + len(work) > max_paths:
+                raise CheckerError("too many paths while extracting a decision table in %s" % f.id)
+            for s2 in succ[1:]:
+                work.append((s2, dict(fval), list(visited)))
+            bb = succ[0]
+    return out
+
+
+# ------------------------------------------------------------------------------------------------
+# effects restricted to the successful paths of Result-returning local functions
+
+def success_blocks(f):
+    """blocks of f that lie on a path through an `_0 = Ok(..)` assignment: everything that can reach
+    such an assignment, plus the epilogue actually executed after it (drop flags folded per path)"""
+    import pathsim
+    oks = [bb for bb, i, s in f.assigns() if s["lhs"] == {"l": 0, "p": []} and s["rhs"]["rv"] == "agg" and s["rhs"].get("variant") == "Ok"]
+    if not oks or not f.local_ty(0).startswith("std::result::Result<"):
+        return None
+    live = f.live_blocks(unwind=False)
+    before = {b for b in live if f.reach([b], unwind=False) & set(oks)}
+    ps = pathsim.PathSim(f)
+    after = set()
+    for o in oks:
+        after |= ps.forward_from(o)
+    return before | after
+
+
+def success_effects(facts, inst_id, memo=None, depth=0):
+    """effects of an instance on its successful paths (for local functions returning Result; full
+    effects otherwise), looking through nested local Result-returning callees"""
+    if memo is None:
+        memo = {}
+    if inst_id in memo:
+        return memo[inst_id]
+    inst = facts.instances[inst_id]
+    eff_all = facts.effects()[inst_id]
+    memo[inst_id] = eff_all       # recursion guard
+    f = facts.fns.get(inst["def"]) if inst["kind"] == "item" else None
+    if f is None or not inst.get("local") or depth > 6:
+        return eff_all
+    sb = success_blocks(f)
+    if sb is None:
+        return eff_all
+    out = set(facts.def_tags.get(f.id, set())) if False else set()
+    for bb in sorted(sb):
+        if f.blocks[bb]["cleanup"]:
+            continue
+        for _, kind, to, e in facts.inst_callees(inst, bb):
+            if to is None:
+                out.add({"unresolved": "USER-CALLBACK", "generic": "USER-CALLBACK", "fnptr": "FNPTR", "virtual": "DYN-UNKNOWN", "normalize": "USER-CALLBACK"}.get(kind, "UNKNOWN"))
+            else:
+                out |= success_effects(facts, to, memo, depth + 1)
+    memo[inst_id] = frozenset(out)
+    return memo[inst_id]
